@@ -572,6 +572,9 @@ pub struct World {
     pub stale_indexed_cols: BTreeSet<String>,
     /// a compaction with deferred index remap committed while an index existed (address-style row ids)
     pub deferred_remap_pending: bool,
+    /// version at which a column (by identity) was last cast: the cast replaces the field, so rows written by a handle
+    /// older than that version lack it
+    pub last_cast: BTreeMap<u32, u64>,
 }
 
 pub enum StepOutcome {
@@ -691,6 +694,7 @@ impl World {
             dropped_names: vec![],
             stale_indexed_cols: BTreeSet::new(),
             deferred_remap_pending: false,
+            last_cast: BTreeMap::new(),
         };
         w.versions.insert(v, VersionState { schema, rows, ordered: true, config: BTreeMap::new(), indices: BTreeMap::new() });
         w.latest = v;
@@ -748,7 +752,7 @@ impl World {
             let latest_schema = &self.versions[&self.latest].schema;
             // a non-nullable column that did not exist (as the same field) at the read version: added, or rewritten by a cast
             // ... or any column that was cast since (the field was replaced: values written under the old field are lost)
-            if latest_schema.cols.iter().any(|c| (!c.nullable && !at.schema.cols.iter().any(|o| o.cid == c.cid && o.ty == c.ty)) || at.schema.cols.iter().any(|o| o.cid == c.cid && o.ty != c.ty)) {
+            if latest_schema.cols.iter().any(|c| (!c.nullable && !at.schema.cols.iter().any(|o| o.cid == c.cid && o.ty == c.ty)) || at.schema.cols.iter().any(|o| o.cid == c.cid && o.ty != c.ty) || self.last_cast.get(&c.cid).is_some_and(|v| *v > read_version)) {
                 obs.label("excluded:stale-write-vs-nonnull-add");
                 return Ok(StepOutcome::NoOp);
             }
@@ -794,8 +798,9 @@ impl World {
                 step = &step_owned;
             }
         }
+        let stale_optimize_after_rewrite = stale && self.cfg.stable_row_ids && self.history.iter().any(|k| k == "update" || k == "merge_insert");
         if matches!(step.op, Op::OptimizeIndices { .. })
-            && !self.stale_indexed_cols.is_empty()
+            && (!self.stale_indexed_cols.is_empty() || stale_optimize_after_rewrite)
             && ((self.cfg.stable_row_ids && self.known.contains("C19-stale-index-after-update-stable-rowids")) || (!self.cfg.stable_row_ids && self.known.contains("C19-stale-index-after-inplace-rewrite")))
         {
             // Known finding: with stable row ids, optimize_indices merges the old entries of rewritten rows into the
@@ -852,6 +857,9 @@ impl World {
                 self.versions.insert(now, new_state);
                 self.latest = now;
                 self.last_effect = Some(effect.clone());
+                if let Some((cid, _)) = &effect.cast {
+                    self.last_cast.insert(*cid, now);
+                }
                 if !effect.update.is_empty() && (self.cfg.stable_row_ids || effect.in_place) {
                     let idx_cols: Vec<String> = self.versions[&before_latest].indices.values().cloned().collect();
                     self.stale_indexed_cols.extend(idx_cols);
